@@ -45,6 +45,48 @@ PROPS = {
         "min": {"decodes_ok": 1000, "encodes_ok": 500, "objects_slider": 500, "class_noise": 50,
                 "class_bundled-mutant": 50, "enc_utf16le-bom": 50, "enc_utf16be-bom": 50, "enc_invalid-utf8": 20},
     },
+    "C02": {
+        "level": "exploration",
+        "rule": ("inputs: grammar-generated maps with chronological timing/object lines (clean, unusual-but-accepted spellings, hostile tokens; all modes, "
+                 "versions 3..128, all object kinds, typed multi-segment paths, same-time timing groups, scrambled section order), whole and mutated "
+                 "bundled maps; inputs whose accepted timing/object lines are not chronological are skipped and counted. Oracle: field-by-field key of "
+                 "M1=decode(x) vs M2=decode(encode(M1)) (scalars, timing points, sv/kiai/scroll timelines probed at every control-point/object/node "
+                 "time and midpoints, per-object head, control points, curve path+lengths, sample names/banks), repeated on encode(M1) as input. "
+                 "non-trivial = the map has at least one hit object or timing point; distinct by FNV-64 of the input bytes"),
+        "assumptions": COMMON_ASSUMPTIONS + ["floats are compared by exact rendering; control points/curves of sliders with two consecutive explicit Catmull segments are excluded as the statement says",
+                                             "encoding is skipped (and counted) for maps whose estimated slider-event count exceeds 2e6"],
+        "quick": [leg("main", "rel", 16, 3000, timeout=600, max_secs=150), leg("dbg", "dbg", 8, 600, timeout=600, max_secs=150)],
+        "thorough": [leg("main", "rel", 16, 125000, timeout=3600, max_secs=1700), leg("dbg", "dbg", 16, 15000, timeout=3600, max_secs=1500),
+                     leg("asan", "asan", 8, 5000, timeout=3600, max_secs=1200, optional=True)],
+        "min": {"round_trips": 10000, "second_generation_round_trips": 5000, "sliders_compared": 10000, "mode_taiko": 500, "mode_mania": 500,
+                "mode_catch": 500, "positive_ids": 1000, "class_bundled-whole": 40},
+    },
+    "C03": {
+        "level": "exploration",
+        "rule": ("decoded maps of the C02 domain x 1-4 simultaneous edits out of 36 edit kinds (8 metadata texts built from colon/comment/header/version-like, "
+                 "quoted, non-ASCII fragments; audio and background file names; every numeric field at its limits; flags; mode; countdown; bookmarks; "
+                 "0-16 combo colours; named colours; breaks; ids). Oracle: E=decode(encode(edit(M))) shows exactly the edited values and every other "
+                 "compared field equals B=decode(encode(M)). non-trivial = every case with at least one edit; distinct by FNV-64 of (input, edit list)"),
+        "assumptions": COMMON_ASSUMPTIONS + ["value generators produce only what the format can carry: no line breaks or surrounding whitespace in texts, no '//' or backslash in file names, "
+                                             "integers for AudioLeadIn, clamped ranges for slider multiplier/tick rate, alpha 255",
+                                             "a mode or slider-multiplier edit legitimately changes derived object data, so only scalar fields are compared then; a break edit legitimately changes combo starts, so combo flags are masked then"],
+        "quick": [leg("main", "rel", 16, 2000, timeout=600, max_secs=150)],
+        "thorough": [leg("main", "rel", 16, 62500, timeout=3600, max_secs=1700)],
+        "min": {"fields_checked_unchanged": 500000, "edit_title": 300, "edit_audio_file": 300, "edit_bookmarks": 300, "edit_breaks": 300,
+                "edit_custom_colors": 300, "edit_mode": 300, "edit_beatmap_id(positive)": 300, "edits_per_case_4": 2000},
+    },
+    "C04": {
+        "level": "exploration",
+        "rule": ("every map decoded from the hostile C01 stream (including non-chronological and garbage inputs) and every bundled file is encoded; the encoding "
+                 "must start with the version line, carry the eight headers once in canonical order, and every in-section line must be accepted (a) per the "
+                 "decoder's own tracing event log and (b) by the public parse_<section> functions on a fresh state; line counts per section must equal the "
+                 "record counts of the map and the re-decoded map must keep bookmarks, breaks, colours, timing points and objects by (time, kind). "
+                 "non-trivial = the map has a hit object or timing point; distinct by FNV-64 of the input bytes"),
+        "assumptions": COMMON_ASSUMPTIONS + ["the event-log oracle needs the crate's tracing feature (leg 'main' is built with it); the dbg leg uses oracle (b) only"],
+        "quick": [leg("main", "reltr", 16, 4000, timeout=600, max_secs=150), leg("dbg", "dbg", 8, 800, timeout=600, max_secs=150)],
+        "thorough": [leg("main", "reltr", 16, 125000, timeout=3600, max_secs=1700), leg("dbg", "dbg", 16, 15000, timeout=3600, max_secs=1500)],
+        "min": {"encodings_checked": 20000, "encoded_lines_parsed": 500000, "event_logs_inspected": 20000, "objects_read_back": 100000},
+    },
     "C05": {
         "level": "exploration",
         "rule": ("exhaustive: every sequence of line kinds up to length 3 (quick) / 4 (thorough) over a 46-kind alphabet (blank, "
@@ -122,6 +164,22 @@ PROPS = {
 }
 
 MANIFEST_TEXT = {
+    "C02": {
+        "technique": "runtime monitoring: round-trip differential oracle (field-wise key with exact float rendering) over generated and mutated maps; classifier-keyed known findings",
+        "level_text": ("Tens of thousands (quick) to millions (thorough) of chronological inputs are decoded, encoded and decoded again, and every listed field is compared; "
+                       "the relation is checked a second time on the encoder's own output. Differences matching a listed finding's classifier are reported as KNOWN-FINDING, any other difference as VIOLATION."),
+        "level_note": "Sampled input space; the comparator's field list is the statement's list. Findings D11, D14, D15, D16 are classified, not hidden: their counts are in the evidence.",
+    },
+    "C03": {
+        "technique": "runtime monitoring: metamorphic edit oracle — edited fields read back exactly, all other compared fields equal the unedited round trip",
+        "level_text": "Random 1-4 field edits from representable-value generators on decoded maps; each edit must survive encode/decode and must not disturb any other compared field.",
+        "level_note": "Sampled over maps x edits; generators define the representable domain (stated in the evidence assumptions).",
+    },
+    "C04": {
+        "technique": "runtime monitoring: the implementation's own error event log (tracing feature) + public per-line parsers as acceptance oracles over every encoded line; Recorder trace for header order and record counts",
+        "level_text": "Every line of every encoding produced from hostile and bundled inputs is replayed through the decoder under three independent observations (event log, public parse functions, dispatch trace + read-back counts).",
+        "level_note": "Sampled over decoded maps; exhaustive over the lines of each encoding.",
+    },
     "C08": {
         "technique": "runtime monitoring: differential oracle over reader delivery schedules (chunk lists, BufReader capacities, injected Interrupted), exhaustive over fixed chunk sizes and tiny BOM-like files",
         "level_text": ("Each input is decoded through ~100-150 different deliveries and every result must equal from_bytes; all fixed chunk sizes 1..64 and "
